@@ -244,6 +244,12 @@ def cases(tier, seed):
             items = ([("u", "")] if with_empty else []) + [("n", val, sp), ("n", 3.0, ["3"])]
             tg = ([("var", "A")] if with_empty else []) + [("var", "B"), ("var", "C")]
             yield {"kind": "callsite", "what": "READ-numeric-spelling", "prog": [(10, [("data", items)]), (20, [("read", tg)])]}
+    # hexadecimal items, with the blanks the tool's grammar allows inside them, on both READ paths
+    for hv, sp in ((255, "FF"), (255, " FF"), (31, "  1F"), (0, " 0"), (65535, " FFFF"), (4096, "1000"), (10, " A")):
+        for with_empty in (True, False):
+            items = ([("u", "")] if with_empty else []) + [("h", hv, sp), ("n", 3.0, ["3"])]
+            tg = ([("var", "A")] if with_empty else []) + [("var", "B"), ("var", "C")]
+            yield {"kind": "callsite", "what": "READ-hex-spelling", "prog": [(10, [("data", items)]), (20, [("read", tg)])]}
     for data in ([("n", 5.0, ["5"]), ("u", ""), ("n", 2.5, ["2.5"])], [("u", ""), ("u", ""), ("n", 7.0, ["7"])],
                  [("n", 1.0, ["1"]), ("u", ""), ("h", 255, "FF")], [("u", ""), ("q", "X"), ("n", 3.0, ["3"])]):
         tg = [("var", "A"), ("var", "B$" if data[1][0] == "q" else "B"), ("var", "C")]
